@@ -115,7 +115,7 @@ func websocketEndings(meta *gen.Meta) int {
 			}
 			_ = conn.Close()
 			var left []string
-			for t := 0; t < 60; t++ {
+			for t := 0; t < 400; t++ {
 				if left = transportGoroutines(); len(left) == 0 {
 					break
 				}
@@ -124,7 +124,7 @@ func websocketEndings(meta *gen.Meta) int {
 			ts.Close()
 			if len(left) > 0 {
 				meta.Direct = append(meta.Direct, gen.DirectFinding{Signature: "websocket-transport-leaves-goroutines",
-					What:   fmt.Sprintf("websocket (%s), %s: %d goroutine(s) of the transport still alive 300 ms after the connection ended: %v", proto, sc, len(left), left),
+					What:   fmt.Sprintf("websocket (%s), %s: %d goroutine(s) of the transport still alive 2 s after the connection ended: %v", proto, sc, len(left), left),
 					Replay: map[string]any{"subprotocol": proto, "scenario": sc, "goroutines": left}})
 				return n
 			}
@@ -194,7 +194,7 @@ func streamingTransports(meta *gen.Meta, thorough bool) int {
 					}
 					cancel()
 					var left []string
-					for t := 0; t < 40; t++ {
+					for t := 0; t < 400; t++ {
 						if left = transportGoroutines(); len(left) == 0 {
 							break
 						}
@@ -203,7 +203,7 @@ func streamingTransports(meta *gen.Meta, thorough bool) int {
 					if len(left) > 0 {
 						replay["goroutines"] = left
 						meta.Direct = append(meta.Direct, gen.DirectFinding{Signature: "streaming-transport-leaves-goroutines",
-							What:   fmt.Sprintf("%s transport: %d goroutine(s) of the transport still alive 200 ms after the handler returned and the request was cancelled: %v", kind, len(left), left),
+							What:   fmt.Sprintf("%s transport: %d goroutine(s) of the transport still alive 2 s after the handler returned and the request was cancelled: %v", kind, len(left), left),
 							Replay: replay})
 						return n
 					}
